@@ -21,6 +21,10 @@
 //!  ae  = res_aero / rho_air                     [x64]         rgl = res_grade / weight * length          [x2^18]
 //!  rcl = res_curve / weight * length            [x2^18]       pan = pwr_accel / (mass_static+mass_rot)   [x32]
 //!  F[] = the six forces [x128], powers [x8], energies [x4], rate [x8], t [x4], v [x2], offsets [x16]
+//!  ls  = sums over the locomotives (pwr_out, energy_out, fc.energy_fuel, res.energy_out_chemical)
+//! Realistic-scale ("sl") records: t [x4], v [x1024], offsets [x256], consist powers [x16], energies [/64],
+//! forces / pwr_accel / pwr_res [x1]; getters as <<get(false), get(true), total>> at one common scale.
+//! `StepErr.why` = "neg" when the refusal is the negative-speed guard of SetSpeedTrainSim::solve_step.
 use altrios_core::lin_search_hint::Dir;
 use altrios_core::prelude::*;
 use altrios_core::track::PathResCoeff;
@@ -158,6 +162,7 @@ fn ss_step_json(k: usize, s: &TrainState, c: &Consist, towed: f64) -> Value {
         "x": q.q(s.offset.value, SO), "xb": q.q(s.offset_back.value, SO),
         "dist": q.q(s.total_dist.value, SO), "link": s.link_idx_front,
         "xin": q.q(s.offset_in_link.value, SO), "v": q.q(s.speed.value, SV),
+        "vlim": q.q(s.speed_limit.value, SV), "vtgt": q.q(s.speed_target.value, SV),
         "ms": q.q(s.mass_static.value, 1.0), "mr": q.q(s.mass_rot.value, 1.0), "mc": q.q(mc, 1.0),
         "wg": q.q(w / uc::ACC_GRAV.value, 1.0),
         "rr": q.q(nz(s.res_rolling.value / w * towed), 1024.0),
@@ -263,7 +268,10 @@ fn run_ss(desc: &Value, tr: &mut Tracer) -> anyhow::Result<()> {
         match sim.step() {
             Ok(()) => tr.emit(ss_step_json(i, &sim.state, &sim.loco_con, towed)),
             Err(e) => {
-                tr.emit(json!({"ev":"StepErr","k":i,"msg":errtxt(&e)}));
+                // which check refused the step: the negative-speed guard or anything else (consist, path end)
+                let msg = errtxt(&e);
+                let why = if msg.contains("self.speed_trace.speed[self.state.i") && msg.contains(">= si::Velocity::ZERO") { "neg" } else { "other" };
+                tr.emit(json!({"ev":"StepErr","k":i,"why":why,"msg":msg}));
                 break;
             }
         }
@@ -381,6 +389,13 @@ fn sl_step_json(k: usize, s: &TrainState, c: &Consist) -> Value {
         "x": q.q(s.offset.value, LO), "xb": q.q(s.offset_back.value, LO),
         "dist": q.q(s.total_dist.value, LO), "link": s.link_idx_front,
         "xin": q.q(s.offset_in_link.value, LO), "v": q.q(s.speed.value, LV),
+        "vlim": q.q(s.speed_limit.value, LV), "vtgt": q.q(s.speed_target.value, LV),
+        "ms": q.q(s.mass_static.value, 1.0), "mr": q.q(s.mass_rot.value, 1.0),
+        "wg": q.q(s.weight_static.value / uc::ACC_GRAV.value, 1.0),
+        "F": [q.q(s.res_rolling.value, 1.0), q.q(s.res_bearing.value, 1.0), q.q(s.res_davis_b.value, 1.0),
+              q.q(s.res_aero.value, 1.0), q.q(s.res_grade.value, 1.0), q.q(s.res_curve.value, 1.0)],
+        "elev": q.q(s.elev_front.value, 256.0), "gf": q.q(s.grade_front.value, S14), "gb": q.q(s.grade_back.value, S14),
+        "pa": q.q(s.pwr_accel.value, 1.0), "pr": q.q(s.pwr_res.value, 1.0),
         "pw": q.q(s.pwr_whl_out.value, LP),
         "e": q.q(s.energy_whl_out.value, LE), "ep": q.q(s.energy_whl_out_pos.value, LE),
         "en": q.q(s.energy_whl_out_neg.value, LE),
@@ -453,7 +468,7 @@ fn run_sl(desc: &Value, tr: &mut Tracer) -> anyhow::Result<()> {
         match sim.step() {
             Ok(()) => tr.emit(sl_step_json(i, &sim.state, &sim.loco_con)),
             Err(e) => {
-                tr.emit(json!({"ev":"StepErr","k":i,"msg":errtxt(&e)}));
+                tr.emit(json!({"ev":"StepErr","k":i,"why":"other","msg":errtxt(&e)}));
                 result = "err";
                 break;
             }
@@ -563,7 +578,9 @@ fn gen_ss(r: &mut Rng, neg: bool) -> Value {
         .map(|_| {
             let rt = *r.pick(&[16384i64, 32768, 65536, 131072]);
             if r.chance(1, 3) {
-                json!({"kind":"bel","rres":rt,"redrv":rt,"cap": rt * 64, "kr": *r.pick(&[1, 2]), "ke": *r.pick(&[1, 2]),
+                // mostly a battery that outlasts the run; sometimes one that runs empty (the run is then refused)
+                let cap = if r.chance(1, 4) { rt * 64 } else { rt * 4096 };
+                json!({"kind":"bel","rres":rt,"redrv":rt,"cap": cap, "kr": *r.pick(&[1, 2]), "ke": *r.pick(&[1, 2]),
                        "soc": *r.pick(&[0.5, 0.75, 0.25]), "mass": 1024, "aux": 32})
             } else {
                 json!({"kind":"conv","rfc":rt,"rgen":rt,"redrv":rt,"kf": *r.pick(&[1, 2, 4]), "kg": *r.pick(&[1, 2]),
